@@ -32,11 +32,11 @@ CHECKS = {
         design_ref="DESIGN.md 6/C03", note=TRUST + " With the KEM's own hash the P-384/P-521 retry path is unreachable (p < 2^-190); it is exercised with a KDF other than the KEM's."),
     "C04": dict(
         technique="runtime monitoring: abstract state machine (counter + latch) stepped in lock-step with the real sender context; every ciphertext recomputed with OpenSSL under the model's nonce; sort-based nonce-reuse detector over bursts",
-        text="Exploration of the 2^64 counter space by structure: a full prefix (2^20 quick / 2^24 thorough seals per AEAD) for uniqueness, every byte-carry boundary, the last values before and after exhaustion, seeded random positions, arbitrary call histories on dead contexts; thorough: 64.5 GiB through one context per AEAD and the raw-key workload interpreted by Miri for a 32-bit (i686), a big-endian (s390x) and a non-x86 little-endian (aarch64) target, and positions at opt-level 0, 1, s, z and target-cpu=native. Seals that fail (SealError) are driven with mock AEADs implementing the crate's public Aead trait (nonce sizes 12, 24 and 8 bytes) whose tag echoes the nonce: a failed seal must not consume a sequence number or set the latch, also exactly at 2^64-1, and the counter sits in the last 8 bytes of a nonce of any size. Mixed build configurations (no-alloc + panic=abort + opt-level s + native CPU; std + panic=abort + opt-level z) every time, a pairwise covering set of 15 configurations in the thorough tier. Contexts are built from raw key material through a cfg(hpke_verif) hook so the monitor does not depend on the key schedule.",
+        text="Exploration of the 2^64 counter space by structure: a full prefix (2^20 quick / 2^24 thorough seals per AEAD) for uniqueness, every byte-carry boundary, the last values before and after exhaustion, seeded random positions, arbitrary call histories on dead contexts; thorough: 64.5 GiB through one context per AEAD and the raw-key workload interpreted by Miri for i686, s390x, aarch64, powerpc (32-bit big-endian) and two target x feature conjunctions, and positions at opt-level 0, 1, s, z and target-cpu=native. Seals that fail (SealError) are driven with mock AEADs implementing the crate's public Aead trait (nonce sizes 8, 12, 13 and 24 bytes, tags of 16, 20 and 32 bytes; they can fail or panic on request) whose tag echoes the nonce: a failed seal must not consume a sequence number or set the latch, also exactly at 2^64-1, and the counter sits in the last 8 bytes of a nonce of any size. Mixed build configurations (no-alloc + panic=abort + opt-level s + native CPU; std + panic=abort + opt-level z) every time, a pairwise covering set of 15 configurations in the thorough tier. Contexts are built from raw key material through a cfg(hpke_verif) hook so the monitor does not depend on the key schedule.",
         design_ref="DESIGN.md 6/C04", note=TRUST + " Positions beyond the burst prefix are reached with the set_seq hook."),
     "C05": dict(
         technique="runtime monitoring: offline checker of recorded delivery histories against an abstract receiver model (position + latch); acceptance decided from recorded bytes only",
-        text="Exploration of adversarial histories (next/replay/future/bit-flips/truncation/extension/garbage/mixed tag/alias replays at p + k*2^(8j), both APIs, positions 0, random, byte carries, 2^64-3.. across exhaustion), a run of 66 000+ rejected deliveries on one context, on checked and release builds; genuine AES-GCM messages constructed to carry chosen tag values (all-zero, all-FF, ..., and the tag of an earlier message of the same context) must be accepted; thorough: alias replays under Miri for i686, s390x and aarch64. Found F1 (open() on an exhausted context answered short inputs with OpenError), fixed in /repo 7e92e6f.",
+        text="Exploration of adversarial histories (next/replay/future/bit-flips/truncation/extension/garbage/mixed tag/alias replays at p + k*2^(8j), both APIs, positions 0, random, byte carries, 2^64-3.. across exhaustion), a run of 66 000+ rejected deliveries on one context, on checked and release builds; genuine AES-GCM messages constructed to carry chosen tag values (all-zero, all-FF, ..., and the tag of an earlier message of the same context) must be accepted; AEAD panics inside open (mock AEADs) must leave the receiver where it was; thorough: 2^32+16 refused deliveries on one receiver, alias replays under Miri for i686, s390x and aarch64. Found F1 (open() on an exhausted context answered short inputs with OpenError), fixed in /repo 7e92e6f.",
         design_ref="DESIGN.md 6/C05, 7", note=TRUST),
     "C06": dict(
         technique="runtime monitoring: tamper oracle over recorded opens - any delivered (ct, tag, aad) that differs from what the sender produced must yield OpenError on all four opening interfaces",
@@ -80,7 +80,7 @@ CHECKS = {
         design_ref="DESIGN.md 6/C15", note=TRUST),
     "C16": dict(
         technique="runtime monitoring: memory-observing monitors - slot photographs around drop_in_place, liveness probe (in-place inversion of every sighting + behaviour comparison), transformed-copy needles, freed-memory residue seen by the driver's own allocator (also on the shipping build: guard off, release), plus a drop-ledger hook",
-        text="Exploration over suites/modes/roles and directed degenerate-looking secrets: shared secret, base nonce and exporter secret must be sighted in the object's own storage before the drop and wiped after; every live copy (one whose inversion changes the context's behaviour), raw or transformed, must be wiped; a context's heap block may hold nothing live when it is freed - checked on the build a user ships, where nothing inside the crate reads the wiped bytes; every setup must drop the temporary AEAD key and the shared secret with no nonzero residue; drops performed by the unwinder (object owned by a panicking frame) are judged the same way, on the alloc and std builds; after ordinary drops every writable mapping of the process except the thread stacks is searched for the secrets (copies parked in statics, thread-locals or leaked blocks).",
+        text="Exploration over suites/modes/roles and directed degenerate-looking secrets: shared secret, base nonce and exporter secret must be sighted in the object's own storage before the drop and wiped after; every live copy (one whose inversion changes the context's behaviour), raw or transformed, must be wiped; a context's heap block may hold nothing live when it is freed - checked on the build a user ships, where nothing inside the crate reads the wiped bytes; every setup must drop the temporary AEAD key and the shared secret with no nonzero residue; drops performed by the unwinder (object owned by a panicking frame) are judged the same way, on the alloc and std builds; keyed SHA-2 chaining values (a pre-keyed HMAC) count as copies of the exporter secret; after ordinary drops every writable mapping of the process except the thread stacks is searched for the secrets (copies parked in statics, thread-locals or leaked blocks).",
         design_ref="DESIGN.md 6/C16", note=TRUST + " Only the object's own storage is inspected; stale copies in dead bytes carried by moves are counted, not judged."),
     "C17": dict(
         technique="runtime monitoring over configurations: crate tests, corpus replay of the driver vs the all-features build, API presence probes, examples and bench, guard on/off comparison, per feature subset",
